@@ -423,3 +423,96 @@ func checkBufferReread(c *Ctx) {
 		}
 	}
 }
+
+// checkStaleTriple: C06.stale-cursor. After a call that enters or leaves a
+// search mode, the shell's line / cursor fields still point to the buffer of the
+// mode just left: a root-package function must not move or clamp the cursor
+// through them, nor hand them to a function that writes them, before a
+// GetBuffer call.
+func checkStaleTriple(c *Ctx, rule string) {
+	p, r := c.P, c.R
+	r.Rule(rule, "K1", "in every function of the root package, after a call that enters or leaves a search mode (IsearchStart / IsearchStop / NonIsearchStart / NonIsearchStop, Engine.Reset / ResetForce), the cursor loaded from Shell.cursor is not moved or clamped, and Shell.line / Shell.cursor are not passed on, before completion.Engine.GetBuffer has been called again: they still point to the buffer of the mode just left, so the clamp that keeps the vi-command cursor on a character (or the search result) lands in the abandoned buffer", 3)
+	definite := map[string]bool{
+		"(*completion.Engine).IsearchStart": true, "(*completion.Engine).IsearchStop": true,
+		"(*completion.Engine).NonIsearchStart": true, "(*completion.Engine).NonIsearchStop": true,
+		"(*completion.Engine).Reset": true, "(*completion.Engine).ResetForce": true,
+	}
+	for n := range definite {
+		if p.Func(n) == nil {
+			r.Unk(rule, n, "-", "anchor not found")
+			return
+		}
+	}
+	isGetBuffer := func(in ssa.Instruction) bool {
+		cl, ok := in.(*ssa.Call)
+		return ok && calleeName(cl) == "(*completion.Engine).GetBuffer"
+	}
+	isShellLoad := func(v ssa.Value, flds ...string) bool {
+		u, ok := stripConv(v).(*ssa.UnOp)
+		if !ok || u.Op != token.MUL {
+			return false
+		}
+		tn, fld, ok := fieldOf(u.X)
+		if !ok || tn != "readline.Shell" {
+			return false
+		}
+		for _, f := range flds {
+			if f == fld {
+				return true
+			}
+		}
+		return false
+	}
+	cursorWriters := p.writersExcept("core.Cursor", "pos")
+	// a write through the stale pointers: a Cursor method that may write pos called on
+	// the loaded Shell.cursor, or Shell.line / Shell.cursor passed as an argument
+	isStaleWrite := func(in ssa.Instruction) bool {
+		call, ok := in.(ssa.CallInstruction)
+		if !ok {
+			return false
+		}
+		com := call.Common()
+		callee := com.StaticCallee()
+		if callee == nil || !inRepo(callee) {
+			return false
+		}
+		for i, a := range com.Args {
+			if i == 0 && callee.Signature.Recv() != nil {
+				if isShellLoad(a, "cursor") && cursorWriters[callee] && fnName(callee) != "(*core.Cursor).Pos" {
+					return true
+				}
+				continue
+			}
+			if isShellLoad(a, "line", "cursor") {
+				return true
+			}
+		}
+		return false
+	}
+	for _, f := range p.RepoFuncs {
+		if len(f.Blocks) == 0 || f.Pkg == nil || f.Pkg.Pkg.Path() != modPath {
+			continue
+		}
+		eachInstr(f, func(in ssa.Instruction) {
+			call, ok := in.(ssa.CallInstruction)
+			if !ok {
+				return
+			}
+			callee := call.Common().StaticCallee()
+			if callee == nil || !definite[fnName(callee)] {
+				return
+			}
+			if _, isDefer := in.(*ssa.Defer); isDefer {
+				return
+			}
+			r.Fn(fnName(f))
+			key := fmt.Sprintf("%s:%s#%d", fnName(f), fnName(callee), callOrdinal(f, in))
+			w := pathAvoiding(f, in, isStaleWrite, isGetBuffer)
+			if w == nil {
+				r.OK(rule, key, p.IPos(in), "no cursor move / hand-over of the shell's line and cursor follows without a GetBuffer call")
+				return
+			}
+			r.Bad(rule, key, p.IPos(in), "after this call, which enters or leaves a search mode, "+p.IPos(w)+" moves the cursor loaded from the shell (or hands its line / cursor on) without GetBuffer having been called again: it is the cursor of the buffer just left")
+		})
+	}
+}
